@@ -3,7 +3,6 @@ package obfuscation
 import (
 	"fmt"
 	"strconv"
-	"strings"
 
 	"golang.org/x/exp/slices"
 
@@ -155,25 +154,13 @@ func (obfuscator Obfuscator) obfuscateJSON(
 	return obfuscatedJSON, nil
 }
 
-// isCursorInExcludedPath checks if the given path segment should be excluded from obfuscation
-// usage only slices.Contains(excludedPaths, cursor) cannot work for JSONPath exclusions,
-// since it compares the whole string and works only for simple strings exclusions
+// isCursorInExcludedPath checks if the given path segment should be excluded from obfuscation.
+// An exclusion applies to exactly the path it names (and, through onExcludedPath, to everything
+// under it): the cursor is compared as a whole path, so an exclusion for `.user.name` never
+// matches a different path that merely ends the same way, such as a top-level `.name`.
+// Callers holding JSONPath-style exclusions (`$.request.body.user.name`) strip the body prefix first.
 func isCursorInExcludedPath(cursor string, excludedPaths []string) bool {
-	// simple string comparison
-	if slices.Contains(excludedPaths, cursor) {
-		return true
-	}
-
-	// json path support
-	if cursor == "" {
-		return false
-	}
-	for _, path := range excludedPaths {
-		if strings.HasSuffix(path, cursor) {
-			return true
-		}
-	}
-	return false
+	return slices.Contains(excludedPaths, cursor)
 }
 
 func getKeys(object *fastjson.Object) []string {
